@@ -125,10 +125,17 @@ def generate(rng, tier):
                 argv = ['--modname', 'PATH:' + target, '--command', cmd, '--verbose=%d' % verbose]
             if rng.random() < 0.2:
                 argv.append('--time')
+            if rng.random() < 0.3:
+                # verbosity by the two shorthand flags
+                argv = [a for a in argv if not a.startswith('--verbose=')] + [rng.choice(['--quiet', '--silent']) if cmd != 'list' else '--quiet']
+            if rng.random() < 0.4:
+                argv += rng.sample(['--nocolor', '--durations=0', '--durations=3', '--offset', '--report=cdiff',
+                                    '--report=none', '--analysis=static', '--analysis=dynamic'], rng.randint(1, 2))
             ops.append({'op': 'cli', 'argv': argv})
         else:
             ops.append({'op': 'runner', 'target': target, 'command': cmd, 'verbose': verbose,
-                        'durations': rng.choice([None, None, 0, 2])})
+                        'durations': rng.choice([None, None, 0, 2]),
+                        'analysis': rng.choice(['auto', 'auto', 'static', 'dynamic'])})
     # plan: turn some passing executions into failures
     plan = []
     if many:
@@ -215,6 +222,10 @@ def _cmd_of(op):
     for a in argv:
         if a.startswith('--verbose='):
             verbose = int(a.split('=')[1])
+        elif a == '--quiet':
+            verbose = 1
+        elif a == '--silent':
+            verbose = 0
     return target, cmd, verbose
 
 
